@@ -306,23 +306,36 @@ def _addsub_spec(sign):
                     exact = amount(h, self.t) + sign * payload
                     ctx.axiom(q_round_facts(h, exact, u1))
                     has1, qu1 = unit_quantum(h, u1)
-                    if name == "same-unit":
-                        ctx.axiom(grid_sum_facts(amount(h, self.t), payload,
-                                                 sign, qu1),
-                                  "A3: ground instances of lemma field/"
-                                  "cancel-common-factor and of the definition "
-                                  "of the ghost witness grid_k")
+                    a2 = amount(h, other.t)
+                    same_u = unit_of(h, other.t) == u1
+                    exact2 = amount(h, self.t) + sign * a2
+                    if name in ("same-unit", "linear"):
+                        ctx.axiom(z3.And(
+                            grid_sum_facts(amount(h, self.t), a2, sign, qu1),
+                            grid_sum_facts(amount(h, self.t), a2, sign, qu1,
+                                           exact=exact)),
+                                  "A3: ground instances of lemmas grid/sum-of-"
+                                  "multiples-not-rounded, field/cancel-common-"
+                                  "factor and of the definition of the ghost "
+                                  "witness grid_k")
+                        # the other operand in the same unit: its equivalent
+                        # amount is its amount ((a * s) / s == a, s > 0)
+                        ctx.axiom(z3.Implies(same_u, z3.And(
+                            payload == a2, exact == exact2,
+                            exact / qu1 == exact2 / qu1)),
+                            "A3: ground instance of lemma field/cancel-"
+                            "common-factor ((a * s) / s == a)")
 
-                    def exact_on_grid(c, o, exact=exact, payload=payload,
-                                      has1=has1, qu1=qu1):
+                    def exact_on_grid(c, o, exact2=exact2, a2=a2,
+                                      same_u=same_u, has1=has1, qu1=qu1):
                         a1 = amount(c.pre, self.t)
                         return qty_result(o, lambda q, ph: z3.Implies(
-                            z3.And(has1, qu1 > 0, grid_w(a1, qu1),
-                                   grid_w(payload, qu1)),
-                            z3.And(amount(ph, q) == exact,
-                                   grid_k(exact, qu1) == grid_k(a1, qu1) +
-                                   sign * grid_k(payload, qu1),
-                                   grid_w(exact, qu1))))
+                            z3.And(same_u, has1, qu1 > 0, grid_w(a1, qu1),
+                                   grid_w(a2, qu1)),
+                            z3.And(amount(ph, q) == exact2,
+                                   grid_k(exact2, qu1) == grid_k(a1, qu1) +
+                                   sign * grid_k(a2, qu1),
+                                   grid_w(exact2, qu1))))
 
                     def build(c, exact=exact):
                         return new_qty(c, cls_of(c.pre, self.t),
@@ -345,7 +358,8 @@ def _addsub_spec(sign):
                             ("fresh", lambda c, o: qty_result(
                                 o, lambda q, ph: fresh_in(c, ph, q))),
                         ] + ([("multiples-of-the-quantum-add-exactly",
-                               exact_on_grid)] if name == "same-unit" else []),
+                               exact_on_grid)]
+                             if name in ("same-unit", "linear") else []),
                         result=build, props=["C03", "C05"]))
                 elif kind == "none":
                     cases.append(Case(name, w, raises="UnitConversionError",
